@@ -1504,7 +1504,10 @@ func (e *Engine) convert(f *Frame, st *State, x Val, to types.Type, pos token.Po
 				arr := e.alloc(st)
 				srt := e.sortOf(sl.Elem())
 				a := e.freshConst("bytes", "(Array Int "+srt+")")
-				e.assume("true", fmt.Sprintf("(forall ((i Int)) (! (=> (and (<= 0 i) (< i (slen %s))) (= (select %s i) %s)) :pattern ((select %s i))))", x.S, a, e.byteOfStr(x.S, "i", sl.Elem()), a))
+				// two alternative triggers: facts about the string's bytes must reach the array and the other way round
+				// (with the array-side trigger only, a property of s[i] was never carried over to []byte(s)[i]: proofs depended on the solver seed)
+				xs := e.nameConst("strsrc", "Str", x.S)
+				e.assume("true", fmt.Sprintf("(forall ((i Int)) (! (=> (and (<= 0 i) (< i (slen %s))) (= (select %s i) %s)) :pattern ((select %s i)) :pattern ((sbyte %s i))))", xs, a, e.byteOfStr(xs, "i", sl.Elem()), a, xs))
 				h := e.getHeapA(st, srt)
 				st.heapA[srt] = e.define("ha", e.heapASort(srt), fmt.Sprintf("(store %s %s %s)", h, arr, a))
 				return Val{T: to, S: e.define("sl", "Slice", fmt.Sprintf("(mk-slice %s 0 (slen %s) (slen %s))", arr, x.S, x.S))}
